@@ -439,6 +439,7 @@ type UnitSpec struct {
 	Requires []*Clause
 	Ensures  []*Clause
 	Modifies []string // heap classes; nil+ModAll => everything
+	Preserves []string // with no modifies clause: everything is havoced except these classes
 	ModSet   bool     // a modifies/pure line was given
 	Pure     bool
 	Loops    map[int]*LoopSpec
@@ -597,9 +598,9 @@ func ParseContracts(path, pkgName, src string) (*ContractFile, error) {
 				cf.Consts[f[0]] = strings.Join(f[2:], " ")
 			}
 		default:
-			if cur == nil && kw == "ghost" {
+			if kw == "ghost" && strings.HasPrefix(rest, "$") && !strings.Contains(rest, ":=") {
 				f := strings.Fields(rest)
-				if len(f) != 2 || !strings.HasPrefix(f[0], "$") {
+				if len(f) != 2 {
 					return nil, fmt.Errorf("%s: global ghost needs '$name type'", where)
 				}
 				if cf.GlobalGhosts == nil {
@@ -642,6 +643,8 @@ func ParseContracts(path, pkgName, src string) (*ContractFile, error) {
 					}
 					cur.Modifies = append(cur.Modifies, m)
 				}
+			case "preserves":
+				cur.Preserves = append(cur.Preserves, strings.Fields(strings.ReplaceAll(rest, ",", " "))...)
 			case "pure":
 				cur.ModSet = true
 				cur.Pure = true
